@@ -1174,6 +1174,13 @@ class SQLObject(with_metaclass(declarative.DeclarativeMeta, object)):
                 if to_python:
                     value = to_python(dbValue, self._SO_validatorState)
                 toCache[name] = value
+            for name in extra:
+                # (refuse an unknown keyword before anything is changed)
+                if not hasattr(self.__class__, name) \
+                        and name not in self.sqlmeta.columns:
+                    raise TypeError(
+                        "%s.set() got an unexpected keyword argument "
+                        "%s" % (self.__class__.__name__, name))
             for name, value in toCache.items():
                 setattr(self, instanceName(name), value)
 
